@@ -361,6 +361,7 @@ func (r *Relayer) Receive(f *Frame, fType frameType) (sent bool, failureReason s
 	}
 	select {
 	case r.conn.sendCh <- f:
+		verifPoint("relay.Receive.sent", id)
 	default:
 		// Buffer is full, so drop this frame and cancel the call.
 
